@@ -996,7 +996,24 @@ func vRunLife(c *vCase) {
 }
 
 // vFreeUDPPort asks the kernel for a UDP port that is free right now (other shards and checks run concurrently).
+// vFreeUDPPort picks a free UDP port below the kernel's ephemeral range (32768-60999 here). A port the kernel hands out on
+// request (bind to port 0) can be handed to any other process on the machine the moment it is closed again, and the sources
+// bind their port some time after it was picked, and bind it again when they are configured again: on a loaded machine
+// that gave "address already in use" in an innocent case. Ports 10000-29999 are only taken by processes that ask for them
+// by number; the candidates depend on the process id and a counter, and each is probed before use.
+var vPortCounter int32
+
 func vFreeUDPPort() int {
+	for try := 0; try < 200; try++ {
+		n := int(atomic.AddInt32(&vPortCounter, 1))
+		port := 10000 + (os.Getpid()*97+n*131)%20000
+		conn, err := net.ListenUDP("udp", &net.UDPAddr{IP: net.IPv4(127, 0, 0, 1), Port: port})
+		if err != nil {
+			continue
+		}
+		conn.Close()
+		return port
+	}
 	conn, err := net.ListenUDP("udp", &net.UDPAddr{IP: net.IPv4(127, 0, 0, 1), Port: 0})
 	if err != nil {
 		return 40000 + os.Getpid()%20000
